@@ -29,9 +29,11 @@ Qed.
 
 Lemma mem_false : forall i l, mem i l = false <-> ~ In i l.
 Proof.
-  intros i l. rewrite <- mem_In. destruct (mem i l); split; intro H; try reflexivity; try discriminate.
-  - intro; discriminate.
+  intros i l. rewrite <- mem_In. destruct (mem i l); split; intro H.
+  - discriminate.
   - contradiction H; reflexivity.
+  - intro; discriminate.
+  - reflexivity.
 Qed.
 
 Lemma dedupe_In : forall l i, In i (dedupe l) <-> In i l.
@@ -314,3 +316,183 @@ Proof.
     + destruct (is_changed (mk_change a b x)) eqn:E; [left; apply Hchg; reflexivity | right; reflexivity].
     + exact Hpar.
 Qed.
+
+(* ------------------------------------------------------------ applying a filtered delta *)
+
+Lemma existsb_ids : forall l x, existsb (fun c => Nat.eqb (c_id c) x) l = true <-> In x (ids_of l).
+Proof.
+  intros l x. rewrite existsb_exists. unfold ids_of. rewrite in_map_iff. split.
+  - intros (c & Hc & E). apply Nat.eqb_eq in E. exists c. auto.
+  - intros (c & E & Hc). exists c. split; [exact Hc | apply Nat.eqb_eq; exact E].
+Qed.
+
+(* the applied delta has the target's entry on every reported id, the source's elsewhere *)
+Theorem filtered_apply_agrees : forall a b F incl l ex i,
+  sorted a -> all_normalb a = true -> all_normalb b = true ->
+  generic_full a b F incl = Some (l, ex) ->
+  lookup i (apply_changes (tree_content b) l a) =
+    if existsb (fun c => Nat.eqb (c_id c) i) l then lookup i b else lookup i a.
+Proof.
+  intros a b F incl l ex i Sa Na Nb H.
+  apply (apply_changes_lookup a b l a i Na Nb Sa (generic_filtered_sound _ _ _ _ _ _ H)).
+  left; reflexivity.
+Qed.
+
+(* ... and on every reported or examined id the chain of ancestors is the target's:
+   each needed parent is present with exactly the target's entry, up to the root. *)
+Theorem filtered_paths_agree : forall a b fs incl l ex,
+  sorted a -> all_normalb a = true -> all_normalb b = true ->
+  generic_full a b (Some fs) incl = Some (l, ex) ->
+  forall n x, In x (ids_of l) \/ In x ex ->
+    path_of_fuel n (apply_changes (tree_content b) l a) x = path_of_fuel n b x.
+Proof.
+  intros a b fs incl l ex Sa Na Nb H.
+  pose proof (generic_filtered_sound _ _ _ _ _ _ H) as Hd.
+  destruct (generic_filtered_closed _ _ _ _ _ _ H) as [K1 K2].
+  assert (HL : forall x, In x (ids_of l) \/ In x ex ->
+                 lookup x (apply_changes (tree_content b) l a) = lookup x b).
+  { intros x Hx. rewrite (filtered_apply_agrees a b (Some fs) incl l ex x Sa Na Nb H).
+    destruct (existsb (fun c => Nat.eqb (c_id c) x) l) eqn:E; [reflexivity|].
+    destruct Hx as [Hx|Hx]; [apply existsb_ids in Hx; rewrite Hx in E; discriminate|].
+    destruct (K2 x Hx) as [[Hin|Hu] _]; [apply existsb_ids in Hin; rewrite Hin in E; discriminate|].
+    apply is_changed_false_eq; assumption. }
+  assert (HP : forall x e p, In x (ids_of l) \/ In x ex -> lookup x b = Some e -> e_parent e = Some p ->
+                 In p (ids_of l) \/ In p ex).
+  { intros x e p Hx Lb Hp.
+    assert (Hpar : snd (c_parent (mk_change a b x)) = Some p)
+      by (unfold mk_change; cbn [c_parent snd]; rewrite Lb; exact Hp).
+    destruct Hx as [Hx|Hx].
+    - unfold ids_of in Hx. apply in_map_iff in Hx as (c & Ec & Hc).
+      rewrite Forall_forall in Hd. pose proof (Hd c Hc) as Dc. unfold derived in Dc. rewrite Ec in Dc.
+      apply (K1 c p Hc). rewrite Dc. exact Hpar.
+    - destruct (K2 x Hx) as [_ Hq]. apply Hq. exact Hpar. }
+  induction n as [|n IH]; intros x Hx; cbn [path_of_fuel]; [reflexivity|].
+  rewrite (HL x Hx). destruct (lookup x b) as [e|] eqn:Lb; [|reflexivity].
+  destruct (e_parent e) as [p|] eqn:Hp; [|reflexivity].
+  rewrite (IH p (HP x e p Hx Lb Hp)). reflexivity.
+Qed.
+
+(* ------------------------------------------------------------ refutations (witnesses replayed on the real code) *)
+
+Definition D0 : entry := mkEntry None [] KDir [] false [].
+Definition fl (p : fid) (n : N) (c : N) : entry := mkEntry (Some p) [n] KFile [c] false [].
+Definition dr (p : fid) (n : N) : entry := mkEntry (Some p) [n] KDir [] false [].
+
+(* W1: x(1) -> y while y(2) -> z, filter {x}: only id 1 is reported; applying it puts
+   ids 1 and 2 at the same path *)
+Definition w1a : tree := [(0, D0); (1, fl 0 120 49); (2, fl 0 121 50)].
+Definition w1b : tree := [(0, D0); (1, fl 0 121 49); (2, fl 0 122 50)].
+
+Lemma filtered_valid_refuted :
+  valid_tree w1a /\ valid_tree w1b /\
+  exists l, generic w1a w1b (Some [[[120%N]]]) false = Some l /\
+            ids_of l = [1] /\
+            valid_treeb (apply_changes (tree_content w1b) l w1a) = false /\
+            parent_validb (apply_changes (tree_content w1b) l w1a) = true.
+Proof.
+  split; [vm_compute; reflexivity|]. split; [vm_compute; reflexivity|].
+  eexists. split; [vm_compute; reflexivity|]. split; [reflexivity|].
+  split; vm_compute; reflexivity.
+Qed.
+
+(* W2: d(1) renamed to e, new directory d(3), d/x(2) reparented; filter {e}:
+   id 1 is yielded by the main loop and again by _handle_precise_ids *)
+Definition w2a : tree := [(0, D0); (1, dr 0 100); (2, fl 1 120 49)].
+Definition w2b : tree := [(0, D0); (1, dr 0 101); (2, fl 3 120 49); (3, dr 0 100)].
+
+Lemma generic_duplicates_refuted :
+  valid_tree w2a /\ valid_tree w2b /\
+  exists l, generic w2a w2b (Some [[[101%N]]]) false = Some l /\ ids_of l = [1; 2; 3; 1] /\
+  exists l', chk w2a w2b (Some [[[101%N]]]) false = Some l' /\ ids_of l' = [1; 2; 3; 1].
+Proof.
+  split; [vm_compute; reflexivity|]. split; [vm_compute; reflexivity|].
+  eexists. split; [vm_compute; reflexivity|]. split; [reflexivity|].
+  eexists. split; [vm_compute; reflexivity|]. reflexivity.
+Qed.
+
+(* W3: include_unchanged below a renamed directory: the CHK glue reports the unchanged
+   child d/x with the NEW path on both sides, the generic walker with (old, new) *)
+Definition w3a : tree := [(0, D0); (1, dr 0 100); (2, fl 1 120 49)].
+Definition w3b : tree := [(0, D0); (1, dr 0 101); (2, fl 1 120 49)].
+
+Lemma chk_include_unchanged_refuted :
+  valid_tree w3a /\ valid_tree w3b /\
+  exists lg lc, generic w3a w3b None true = Some lg /\ chk w3a w3b None true = Some lc /\
+    In (mk_change w3a w3b 2) lg /\ ~ In (mk_change w3a w3b 2) lc /\
+    exists c, In c lc /\ c_id c = 2 /\ c_path c = (Some [[101%N]; [120%N]], Some [[101%N]; [120%N]]).
+Proof.
+  split; [vm_compute; reflexivity|]. split; [vm_compute; reflexivity|].
+  eexists. eexists. split; [vm_compute; reflexivity|]. split; [vm_compute; reflexivity|].
+  split; [vm_compute; tauto|]. split.
+  - vm_compute. intros [H|[H|[H|[]]]]; discriminate.
+  - eexists. split; [right; right; left; reflexivity|]. split; reflexivity.
+Qed.
+
+(* ------------------------------------------------------------ combined statements *)
+
+Theorem optimised_equals_generic_unfiltered : forall a b,
+  exists lg lc, generic a b None false = Some lg /\ chk a b None false = Some lc /\
+                forall c, In c lg <-> In c lc.
+Proof.
+  intros a b. destruct (generic_unfiltered_spec a b false) as (lg & Hg & Hin).
+  exists lg, (changes a b). split; [exact Hg|]. split; [apply chk_unfiltered_spec|]. exact Hin.
+Qed.
+
+(* the unfiltered generic result applied to the source gives the target *)
+Theorem generic_unfiltered_roundtrip : forall a b incl l,
+  valid_tree a -> valid_tree b -> generic a b None incl = Some l ->
+  apply_changes (tree_content b) l a = b.
+Proof.
+  intros a b incl l Va Vb H.
+  destruct (valid_tree_parts a Va) as [Sa Na], (valid_tree_parts b Vb) as [Sb Nb].
+  unfold generic in H. destruct (generic_full a b None incl) as [[l' ex]|] eqn:G; [|discriminate].
+  cbn in H. injection H as ->.
+  apply sorted_ext; [apply apply_changes_sorted; exact Sa | exact Sb|]. intro i.
+  rewrite (filtered_apply_agrees a b None incl l ex i Sa Na Nb G).
+  destruct (existsb (fun c => Nat.eqb (c_id c) i) l) eqn:E; [reflexivity|].
+  destruct (generic_unfiltered_spec a b incl) as (l2 & H2 & Hin).
+  unfold generic in H2. rewrite G in H2. cbn in H2. injection H2 as <-.
+  destruct (lookup i a) as [x|] eqn:La, (lookup i b) as [y|] eqn:Lb; try reflexivity;
+  (destruct (is_changed (mk_change a b i)) eqn:C;
+   [ exfalso;
+     assert (Hi : In (mk_change a b i) l);
+     [ apply Hin; apply in_changes_gen; exists i; split;
+       [ first [ left; apply lookup_in_keys; rewrite La; discriminate
+               | right; apply lookup_in_keys; rewrite Lb; discriminate ]
+       | split; [reflexivity | rewrite C; apply orb_true_r] ]
+     | assert (E' : existsb (fun c => Nat.eqb (c_id c) i) l = true);
+       [ apply existsb_exists; exists (mk_change a b i); split; [exact Hi | cbn; apply Nat.eqb_refl]
+       | rewrite E in E'; discriminate ] ]
+   | rewrite <- La, <- Lb; apply is_changed_false_eq; assumption ]).
+Qed.
+
+Theorem filtered_closed_partial : forall a b fs incl l ex,
+  valid_tree a -> valid_tree b ->
+  generic_full a b (Some fs) incl = Some (l, ex) ->
+  let t' := apply_changes (tree_content b) l a in
+  (* every reported change is the spec change of its id *)
+  Forall (derived a b) l /\
+  (* the result agrees with the target on reported ids and with the source elsewhere *)
+  (forall i, lookup i t' = if existsb (fun c => Nat.eqb (c_id c) i) l then lookup i b else lookup i a) /\
+  (* parent closure: reported + examined ids are closed under "parent in the target",
+     examined-but-unreported ids are unchanged *)
+  (forall c p, In c l -> snd (c_parent c) = Some p -> In p (ids_of l) \/ In p ex) /\
+  (forall x, In x ex -> In x (ids_of l) \/ lookup x a = lookup x b) /\
+  (* hence every reported entry has, in the result, exactly the target's ancestor chain *)
+  (forall n x, In x (ids_of l) \/ In x ex -> path_of_fuel n t' x = path_of_fuel n b x) /\
+  sorted t'.
+Proof.
+  intros a b fs incl l ex Va Vb H t'.
+  destruct (valid_tree_parts a Va) as [Sa Na], (valid_tree_parts b Vb) as [Sb Nb].
+  destruct (generic_filtered_closed _ _ _ _ _ _ H) as [K1 K2].
+  split; [eapply generic_filtered_sound; eauto|].
+  split; [intro i; eapply filtered_apply_agrees; eauto|].
+  split; [exact K1|]. split.
+  - intros x Hx. destruct (K2 x Hx) as [[Hin|Hu] _]; [left; exact Hin|].
+    right. apply is_changed_false_eq; assumption.
+  - split; [eapply filtered_paths_agree; eauto | apply apply_changes_sorted; exact Sa].
+Qed.
+
+Example closure_nonvacuous :
+  exists l ex, generic_full w2a w2b (Some [[[101%N]]]) false = Some (l, ex) /\ ex = [3; 0; 1; 0].
+Proof. eexists. eexists. split; [vm_compute; reflexivity | reflexivity]. Qed.
